@@ -175,6 +175,89 @@ def e_from(eng, items):
     return from_bytes(eng, SBytes(items))
 
 
+def encoded_wrapper(pattern, mode="encoded"):
+    """the wrapper py7zr writes around an encoded (or encrypted) header - kEncodedHeader, PackInfo, UnpackInfo - read by the
+    reference: it says where the packed header lies, how long it is, and how long the raw header is"""
+    n = len(pattern)
+    r = ObResult(bounds="create session of kinds %s closed with an %s header; member sizes symbolic" % (pattern or "-", mode))
+    eng, st = mk_engine(1)
+    sizes = [eng.sym_int("size%d" % i, 40) for i in range(n)]
+    names = session_names(n)
+
+    def harness(e):
+        st.pop("compressors", None)
+        for s_ in sizes:
+            e.assume(e.range_cond(s_, 40))
+        z, fp = S.new_archive(e, header_mode=mode, password=("pw" if mode == "encrypted" else None))
+        for i, k in enumerate(pattern):
+            e.method(z, "_writef", S.StubSource(sizes[i], "m%d" % i), names[i])
+        e.method(z, "close")
+        comps = st.get("compressors", [])
+        hdr, start, sig = S.header_items(fp)
+        hcomp = comps[-1]
+        blob_at = [op[1] for op in fp.ops if op[0] == "write" and isinstance(op[2], S.Blob) and op[2].tag[0] == hcomp.ident][0]
+        f = SFile(hdr)
+        o = dict(first=(hdr[0] if hdr else None), blob_at=blob_at, packsize=hcomp.packsize,
+                 rawlen=tokens.byte_len(e, hcomp.sources[-1]) if getattr(hcomp, "sources", None) else None)
+        f.pos = 1
+        try:
+            o["ref"] = e.call(REF, "rd_streams_info", f)
+            o["consumed_all"] = (f.pos == len(hdr))
+        except ModelRaise as ex:
+            o["ref_error"] = "%s%s" % (ex.name, ex.eargs)
+        return o
+
+    def post(o):
+        if "ref_error" in o:
+            return False
+        ref = o["ref"]
+        c = [o["first"] == 0x17, o["consumed_all"], ref["pack"] is not None and len(ref["folders"]) == 1]
+        if ref["pack"] is None or len(ref["folders"]) != 1:
+            return c
+        c.append(eq(eng, eng.binop(ast.Add(), 32, ref["pack"]["packpos"]), o["blob_at"]))    # where the packed header lies
+        c.append(len(ref["pack"]["sizes"]) == 1 and eq(eng, ref["pack"]["sizes"][0], o["packsize"]))
+        fo = ref["folders"][0]
+        c.append(len(fo["unpacksizes"]) == len(fo["coders"]))
+        if o["rawlen"] is not None and fo["unpacksizes"]:
+            c.append(eq(eng, ref7z_size(fo), o["rawlen"]))
+        return c     # (that an encrypted header's chain ends in 7zAES is C11.3; the coder ids here are the codec stub's)
+
+    def ref7z_size(fo):
+        from vf import ref7z
+
+        return ref7z.folder_unpack_size(fo)
+
+    decide(eng, harness, post, {"size%d" % i: s for i, s in enumerate(sizes)}, r, describe=lambda o: o.get("ref_error") or "wrapper parsed")
+    c17._cex(r, "encoded_wrapper", lambda w: dict(module="vf.props.c07", func="replay_wrapper", kwargs=dict(pattern=pattern, mode=mode)),
+         signature=lambda w: {"obligation": "encoded_wrapper", "mode": mode})
+    return r
+
+
+def replay_wrapper(pattern, mode):
+    import py7zr
+    from vf import ref7z
+
+    buf = io.BytesIO()
+    z = py7zr.SevenZipFile(buf, "w", filters=[{"id": py7zr.FILTER_COPY}], password=("pw" if mode == "encrypted" else None),
+                           header_encryption=(mode == "encrypted"))
+    for i, k in enumerate(pattern):
+        z.writestr(bytes([65 + i]) * (3 + i), "m%d" % i)
+    z.close()
+    raw = buf.getvalue()
+    ofs, size, crc = struct.unpack("<QQL", raw[12:32])
+    hb = raw[32 + ofs:32 + ofs + size]
+    if not hb or hb[0] != 0x17:
+        return True, "the header is not an encoded header: first byte %r" % hb[:1]
+    f = io.BytesIO(hb[1:])
+    try:
+        st_ = ref7z.rd_streams_info(f)
+    except Exception as e:  # noqa
+        return True, "the reference rejects the encoded-header wrapper %s: %r" % (hb.hex(), e)
+    fo = st_["folders"][0]
+    bad = f.tell() != len(hb) - 1 or len(fo["unpacksizes"]) != len(fo["coders"]) or 32 + st_["pack"]["packpos"] + st_["pack"]["sizes"][0] != 32 + ofs
+    return bad, "wrapper %s -> %s" % (hb.hex(), st_)
+
+
 # ---------------------------------------------------------------------------------------- replays
 def replay_session(pattern, sizes, names):
     """write the same session with the real library (Copy codec, raw header) and parse it with ref7z natively"""
@@ -257,6 +340,9 @@ def units(tier):
     for p in (["ss", "sd"] if tier == "quick" else ["ss", "sd", "sds"]):
         for k in (2, 3):
             us.append(Unit("S.session_header[%s,%d stages]" % (p, k), M, "session_header", {"pattern": p, "nstages": k}, 900))
+    for p in ("", "s", "ss"):
+        for md in ("encoded", "encrypted"):
+            us.append(Unit("W.encoded_wrapper[%s,%s]" % (p or "empty", md), M, "encoded_wrapper", {"pattern": p, "mode": md}, 900))
     for nm in FILTER_LISTS:
         for aes in (False, True):
             us.append(Unit("5.chain_sizes[%s%s]" % (nm, "+AES" if aes else ""), M, "chain_sizes", dict(name=nm, with_aes=aes), 600))
